@@ -133,7 +133,7 @@ def parse_template(path):
                 cur.subs.append(["spec", [], []])
             cur.subs[-1][2].append(txt)
             continue
-        if s.split(None, 1)[0] in ("cspec_text", "xexpr"):
+        if s.split(None, 1)[0] in ("cspec_text", "xexpr", "xexpr_all"):
             # raw Rust text to the end of the line (no shell-style quoting)
             words = s.split(None, 1)
         else:
@@ -224,12 +224,12 @@ def apply_fn_subs(unit, item, pc, subs_for_fn, fnargs, owner, canary):
             rsx.splice_cspec_self(item, pc, set(sargs[0].split(",")), sargs[1])
         elif sk == "cspec_text":
             rsx.splice_cspec_text(item, pc, sargs[0], text)
-        elif sk == "xexpr":
+        elif sk in ("xexpr", "xexpr_all"):
             # xexpr <call text> = <expression text, whitespace ignored>
             m = re.match(r'((\w+)\([^=]*\))\s+=\s+(.*)$', sargs[0])
             if not m:
                 raise ExtractError("bad xexpr directive")
-            unit.xexprs[m.group(2)] = rsx.rule_xexpr(item, pc, m.group(3), m.group(1))
+            unit.xexprs[m.group(2)] = rsx.rule_xexpr(item, pc, m.group(3), m.group(1), all_occurrences=(sk == "xexpr_all"))
         elif sk == "hoist":
             # hoist <loop ordinal> "<literal>" as <name>
             m = re.match(r'(\d+)\s+"(.*)"\s+as\s+(\w+)$', " ".join(sargs))
@@ -256,7 +256,7 @@ def apply_fn_subs(unit, item, pc, subs_for_fn, fnargs, owner, canary):
         pre += "#[verifier::external_body]\n"
     if pre:
         pc.insert(t[item.vis_start].s, pre, "R-SPLICE")
-    if canary and item.body_open is not None and not xbody:
+    if canary and item.body_open is not None and not xbody and "outside" not in fnargs:
         pc.insert(t[item.body_open].e, " proof { assert(false); } ", "CANARY")
     if not pc.audit():
         raise ExtractError(f"audit failed for {item.name}")
@@ -303,7 +303,8 @@ def emit_fn(unit, item, rel, fnargs, subs, owner, canary, indent=""):
     first = unit.nlines + 1
     unit.emit(indent + text + "\n\n")
     last = unit.nlines
-    is_real = item.body_open is not None and "xbody" not in fnargs
+    # `outside`: the item is placed outside verus!{} (plain Rust that Verus does not verify; never counted as an obligation)
+    is_real = item.body_open is not None and "xbody" not in fnargs and "outside" not in fnargs
     unit.fn_ranges.append((first, last, obligation, is_real))
     contract = "\n".join("\n".join(s[2]) for s in subs if s[0] == "spec").strip()
     record_item(unit, item, rel, pc, "fn", obligation if is_real else None, contract)
